@@ -10,20 +10,21 @@ SPEC = {
     "harness": "c17",
     "n": {"quick": 800, "thorough": 20000},
     "coq_modules": ["Server.Model", "Server.Spec", "Server.Witness", "Server.Release", "Server.Check"],
-    "search": {"n": 3000, "timeout": 600},
+    "search": {"n": 2000, "timeout": 600},
     "components": {"1": "an observed event is not an enabled step of the model", "2": "`Previous` given to a computation differs from the model's",
                    "3": "socket envelopes differ", "4": "SubscriptionLogger calls differ", "5": "merge.ts client state differs from the model's fold",
                    "6": "subscriptions left in the map at the end differ"},
     "corr_name": "Server.Model (step / replay) vs graphql/server.go under a fake JSONSocket: every recorded history must be accepted by the model, which must predict envelopes, logger calls and client states",
     "trusted_base": _TRUSTED,
     "assumptions": [
-        "socket writes succeed; ReadJSON failing (close or undecodable frame) ends the connection",
+        "from the first failing socket write on all writes fail; ReadJSON failing (close, undecodable frame, socket closed after a failed write) ends the connection; after a failed write the model still lets queued messages through (the code handles at most the one ReadJSON had already returned)",
+        "every registration creates a fresh reactive resource (resources shared between computations are the reactive package's reference counting, C04/C08)",
         "a wait of the harness that times out (20 s) is reported only if it times out again when the case is replayed once on a fresh connection; both events are counted in the histogram (harness:wait-timeout-*), the first one with the goroutines that were inside thunder",
         "the repairs C17-fix-1..4 are applied (the model is the code as repaired; the original handleMutate / closeSubscriptions / asynchronous close are kept as configuration flags with refutation witnesses)",
     ],
     "harness_timeout": {"quick": 600, "thorough": 3000},
     "manifest": {
-        "text": "Coq theorems (Props/C17.v) over a labelled transition system of the websocket connection quantify over all histories of messages, run completions, asynchronous close tasks and socket close: no rerunner leaves the subscription map before it is stopped, a stopped rerunner never runs or writes again, Subscribe/Unsubscribe alternate per id and are balanced after close, duplicate-id and limit rules hold in every reachable state. The model is tied to graphql/server.go on every run by trace conformance (recorded histories under a fake socket must be accepted and their envelopes / logger calls predicted) and the property is evaluated directly on the implementation (logger pairing, no computation or write after end / after close with invalidations provoked after the end).",
+        "text": "Coq theorems (Props/C17.v) over a labelled transition system of the websocket connection quantify over all histories of messages, run completions, asynchronous close tasks and socket close: no rerunner leaves the subscription map before it is stopped, a stopped rerunner never runs or writes again, Subscribe/Unsubscribe alternate per id and are balanced after close, duplicate-id and limit rules hold in every reachable state; a socket write may fail at any point of a history (the envelope is lost, the socket closed) without affecting any of these; with the release bookkeeping of the rerunner interface layered on top (Server/Release.v), every resource registered by a computation has exactly one Cleanup call by the time its rerunner has ended, all of them once the connection closed. The model is tied to graphql/server.go on every run by trace conformance (recorded histories under a fake socket must be accepted and their envelopes / logger calls predicted) and the property is evaluated directly on the implementation (logger pairing, no computation or write after end / after close with invalidations provoked after the end, exactly one Cleanup call for every resource registered by an ended subscription, fake socket refusing the k-th write).",
         "note": "Trusted: Coq kernel + vm_compute; the hand-written model (tied to the code only by the conformance check); the Go harness, hook call sites and node. One computation of a rerunner is one atomic step; re-run triggering is over-approximated (C04's subject). Goroutine leaks inside reactive.Rerunner and data races are measured, not proved.",
         "technique": "Coq proof (invariants by induction over histories) over an executable LTS + trace-conformance check (vm_compute) + property oracle on implementation runs with scripted schedules",
     },
